@@ -25,6 +25,12 @@ ROUND4_MISSED_AT_FIRST = {"C02_H", "C01_G", "C04_G", "C06_G", "C08_H", "C09_H", 
 # round 5 (variants I, J)
 ROUND5_MISSED_AT_FIRST = {"C19_I", "C19_J", "C01_J", "C03_J", "C05_I", "C06_I", "C09_I", "C09_J", "C10_I", "C11_I", "C13_I", "C13_J", "C14_I", "C15_J", "C16_I", "C16_J", "C17_I", "C17_J"}
 
+# round 6 (variants K, L): first run with the decision table (7.12) in place; the six below were reported by no check at first
+ROUND6_MISSED_AT_FIRST = {"C05_L", "C08_K", "C11_K", "C12_K", "C17_L", "C18_L"}
+# ... and these were reported at first, but not by the check of the property they were written for (fixed afterwards by attribution / a rule of their own)
+ROUND6_NOT_BY_OWN_AT_FIRST = {"C01_K", "C02_K", "C02_L", "C03_L", "C04_K", "C04_L", "C06_K", "C06_L", "C07_K", "C07_L", "C09_L", "C10_L", "C11_L", "C12_L", "C13_L",
+                              "C14_K", "C14_L"}
+
 def run(d):
     patch = os.path.join(d, "patch.diff")
     t = tempfile.mkdtemp(prefix="verif_tree."); o = tempfile.mkdtemp(prefix="verif_out.")
@@ -53,15 +59,15 @@ with ThreadPoolExecutor(8) as ex:
         sect = ""
         if m:
             rest = notes[m.start():]
-            other = {"A": "B", "B": "A", "C": "D", "D": "C", "E": "F", "F": "E", "G": "H", "H": "G", "I": "J", "J": "I"}[var]
+            other = {"A": "B", "B": "A", "C": "D", "D": "C", "E": "F", "F": "E", "G": "H", "H": "G", "I": "J", "J": "I", "K": "L", "L": "K"}[var]
             m2 = re.search(r"(?im)^#+.*variant\s+%s\b.*$|^\*\*variant\s+%s\b" % (other, other), rest[10:])
             sect = rest[: (m2.start() + 10) if m2 else 2500][:2500].strip()
         conf = [l for l in logs.splitlines() if l.startswith("%s %s demo_clean" % (prop, var))]
         fired = sorted(k for k, v in (res or {}).items() if v[0] == 1)
         files = sorted(set(re.findall(r"^\+\+\+ b/(\S+)", open(os.path.join(d, "patch.diff")).read(), re.M)))
         meta = {
-            "id": sid, "breaks_property": prop, "variant": var, "files_changed": files, "round": {"A": 1, "B": 1, "C": 2, "D": 2, "E": 3, "F": 3, "G": 4, "H": 4, "I": 5, "J": 5}[var],
-            "reported_when_first_run_held_out": (sid not in ROUND2_MISSED_AT_FIRST) if var in "CD" else ((sid not in ROUND3_MISSED_AT_FIRST) if var in "EF" else ((sid not in ROUND4_MISSED_AT_FIRST) if var in "GH" else ((sid not in ROUND5_MISSED_AT_FIRST) if var in "IJ" else None))),
+            "id": sid, "breaks_property": prop, "variant": var, "files_changed": files, "round": {"A": 1, "B": 1, "C": 2, "D": 2, "E": 3, "F": 3, "G": 4, "H": 4, "I": 5, "J": 5, "K": 6, "L": 6}[var],
+            "reported_when_first_run_held_out": (sid not in ROUND2_MISSED_AT_FIRST) if var in "CD" else ((sid not in ROUND3_MISSED_AT_FIRST) if var in "EF" else ((sid not in ROUND4_MISSED_AT_FIRST) if var in "GH" else ((sid not in ROUND5_MISSED_AT_FIRST) if var in "IJ" else ((sid not in ROUND6_MISSED_AT_FIRST) if var in "KL" else None)))),
             "written_by": "independent sub-agent given only the property text and its own worktree (no access to /verif)",
             "mechanism_and_what_it_needs_to_manifest": sect or "see NOTES.md",
             "what_was_run": ["tools/confirm_seed.sh (fresh worktree of /repo HEAD): demo on the unmodified tree, demo with the patch applied, pinned test-suite with the patch applied",
